@@ -30,6 +30,7 @@ type Ledger struct {
 	Violations []string
 	Mallocs    int
 	Frees      int
+	lastFree   string
 }
 
 type callerMem struct {
@@ -135,6 +136,7 @@ func Free(buf []byte) {
 			}
 			b.Live = false
 			b.FreeSite = fs
+			l.lastFree = fs
 			for j := range b.mem {
 				b.mem[j] = Poison
 			}
@@ -202,4 +204,11 @@ func (l *Ledger) LiveBlocks() int {
 		}
 	}
 	return n
+}
+
+// LastFreeSite is the call site of the most recent Free of a ledger block ("" if none).
+func (l *Ledger) LastFreeSite() string {
+	l.mu.Lock()
+	defer l.mu.Unlock()
+	return l.lastFree
 }
